@@ -39,7 +39,7 @@ type pushArm struct {
 
 func findPushArm(p *Prog) *pushArm {
 	input := p.FuncOf(p.Method("KCP", "Input"))
-	pa := &pushArm{input: input, recv: p.recvVar(input)}
+	pa := &pushArm{input: input, recv: p.selfVar(input)}
 	for _, s := range p.CallsTo(p.Method("KCP", "ack_push")) {
 		if s.Fn == input {
 			pa.ackCall = s.Call
@@ -102,7 +102,7 @@ func checkAckedIsAccepted(p *Prog, r *Report, rule string) {
 	pd := p.FuncOf(p.Method("KCP", "parse_data"))
 	c := p.CFG(pd)
 	fa := p.FactsOf(pd)
-	recv := p.recvVar(pd)
+	recv := p.selfVar(pd)
 	kcp := tVar(recv)
 	var seg *types.Var
 	for _, fl := range pd.Decl.Type.Params.List {
